@@ -265,6 +265,9 @@ def run_case(case):
             if rng.random() < 0.3 and model not in M.SOLVED:  # closed-form models have no expm setting
                 expm_setting = rng.choice(["eigen", "pade", "either", "checked"])
             prob = M.gen_problem(rng, model, scoped=scoped, bins=bins, expm_setting=expm_setting, hmm=hmm)
+            if i % 4 == 1:
+                prob["early_queries"] = True  # the function is queried (and refuses) before its alignment is given
+                res.count("function-queried-before-alignment")
             decide_problem(res, prob)
             if i == 0:
                 res.sample({"model": model, "tree": M.newick(prob["tree"]), "aln": prob["aln"], "params": prob["params"], "edge_params": prob["edge_params"], "bins": bins})
